@@ -1,5 +1,7 @@
 import Holpy.Common.Sexp
 import Holpy.C04.Model
+import Holpy.Kernel.Wire
+import Holpy.C04.MacroModel
 /-
 Line protocol for the C04 model (one s-expression in, one out):
   (export PFX PT)               -> (ok (ITEM ...)) | (error KIND)
@@ -12,6 +14,10 @@ ITEM = (ID RULE ARGS (ID ...) SEQ)
 CTX  = ((ID SEQ) ...)                 sequents of the lines of the enclosing proof
 TABLE = ((RULE ARGS (SEQ ...) SEQ) ...)   finite graph of evalRule; absent -> none
 `same` (the seq_to_id lookup) is structural equality of sequents.
+  (macro trivial TERM)                         -> (ok EVAL (STEP ...) RUN)      macro models on the kernel model
+  (macro intros (THM ...))                     -> idem   (the last THM is the proved statement)
+  (macro apply_theorem NAME THM INST (THM ...))-> idem   (THM = the stored theorem, INST = (inst TY SV VS))
+EVAL = THM | none; STEP = (RULE ARG (pos ...)); RUN = last theorem of the script run by `runScriptAx` | (error KIND)
 -/
 open Holpy Holpy.C04
 
@@ -68,8 +74,52 @@ def errTo : Err → String
 
 def errLine (e : Err) : String := toString (Sexp.list [.atom "error", .atom (errTo e)])
 
+/-! macro models on the kernel model -/
+open Holpy.C04.Macro in
+def argAxTo : ArgAx → Sexp
+  | .prim (.term t) => .list [.atom "term", Wire.termTo t]
+  | .prim .none => .list [.atom "none"]
+  | .prim (.inst _) => .list [.atom "inst"]
+  | .name s => .list [.atom "name", .atom s]
+  | _ => .list [.atom "other"]
+
+def stepTo (s : StepAx) : Sexp := .list [.atom s.rule, argAxTo s.arg, .list (s.prevs.map Sexp.ofNat)]
+
+def optThmTo : Option Thm → Sexp
+  | some th => Wire.thmTo th
+  | none => .atom "none"
+
+def runTo : Except RErr (List Thm) → Sexp
+  | .ok ths => match ths.getLast? with
+    | some t => Wire.thmTo t
+    | none => .atom "empty"
+  | .error e => .list [.atom "error", .atom (Wire.rerrTo e)]
+
+def macroAnswer (ev : Option Thm) (script : List StepAx) (axs : List (String × Thm)) (acc : List Thm) : String :=
+  toString (Sexp.list [.atom "ok", optThmTo ev, .list (script.map stepTo), runTo (runScriptAx axs script acc)])
+
+def handleMacro : List Sexp → String
+  | [.atom "trivial", g] =>
+    match Wire.termOf g with
+    | some goal => macroAnswer (Macro.trivialEval goal) (Macro.trivialScript goal) [] []
+    | none => "bad-op"
+  | [.atom "intros", .list ths] =>
+    match ths.mapM Wire.thmOf with
+    | some l =>
+      match l.getLast? with
+      | some body => macroAnswer (Macro.introsEval l.dropLast body) (Macro.introsScript l.dropLast) [] l
+      | none => "bad-op"
+    | none => "bad-op"
+  | [.atom "apply_theorem", .atom name, ax, inst, .list ths] =>
+    match Wire.thmOf ax, Wire.argOf inst, ths.mapM Wire.thmOf with
+    | some a, some (.inst i), some l =>
+      macroAnswer (Macro.applyTheoremEval [(name, a)] name i l) (Macro.applyTheoremScript name i l.length) [(name, a)] l
+    | _, _, _ => "bad-op"
+  | _ => "bad-op"
+
 def handle (line : String) : String :=
   match Sexp.parse line with
+  | some (.list (.atom "macro" :: rest)) => handleMacro rest
   | some (.list [.atom "export", pfx, pt]) =>
     match natsOf pfx, ptOf pt with
     | some p, some t =>
